@@ -133,6 +133,7 @@ type State struct {
 	prevNames map[string]nameBind
 	lockSnap  map[*Term]*Heap
 	stackObjs []stackObj
+	visits    map[*ssa.BasicBlock]int
 }
 
 type stackObj struct {
@@ -160,6 +161,12 @@ func (st *State) clone() *State {
 	}
 	n.trace = append([]Event(nil), st.trace...)
 	n.stackObjs = append([]stackObj(nil), st.stackObjs...)
+	if st.visits != nil {
+		n.visits = map[*ssa.BasicBlock]int{}
+		for k, v := range st.visits {
+			n.visits[k] = v
+		}
+	}
 	n.ghost = make(map[string]*Val, len(st.ghost))
 	for k, v := range st.ghost {
 		n.ghost[k] = v
@@ -215,6 +222,10 @@ type Engine struct {
 	both          bool
 	immutableHeap map[string]bool // heap array names of fields declared immutable
 	axiomsDone    bool
+	unroll        int
+	fnByShort     map[string]fnEntry
+	replayCache   map[string]*replayResult
+	lastParams    []*Val
 	stableFields  []string
 }
 
@@ -244,6 +255,8 @@ type fnCtx struct {
 	abstracted bool
 	maxPaths int
 	loopNames map[*ssa.BasicBlock]map[string]nameBind
+	unroll      int // > 0: bounded mode, loops unrolled (counterexample search only)
+	lastParams  []*Val
 	bindOutside map[*TraceDecl]bool
 	curBlock  *ssa.BasicBlock // top-frame position being executed (for write positions)
 	curIdx    int
